@@ -62,9 +62,72 @@ PROPS['C12'] = dict(
 
 PROPS['C16'] = dict(
     level='proof',
+    title='Statistics are exact at quiescence',
     kani={'quick': ['stats/each_increment_touches_only_its_counter', 'stats/stats_type_indices', 'stats/clear_zeroes_everything',
-                    'stats/new_starts_at_zero', 'stats/hit_ratio_zero_only_without_hits', 'stats/hit_ratio_is_the_quotient',
-                    'cw/update_weight_stats_full_domain'], 'thorough': []},
-    floor={'quick': 7, 'thorough': 7},
-    assumptions=[CONC, 'AtomicU64::fetch_add wraps modulo 2^64 (hits + misses < 2^64 is assumed for the ratio)'],
+                    'stats/new_starts_at_zero', 'stats/hit_ratio_zero_only_without_hits', 'stats/hit_ratio_is_the_quotient_small',
+                    'cw/update_weight_stats_full_domain',
+                    'store/get_n2', 'store/get_ref_n2', 'store/is_present_n2', 'store/put_n2', 'store/delete_n2', 'store/update_n2',
+                    'cw/add_n2', 'cw/delete_n2', 'cw/update_outside_region_n2'],
+          'thorough': ['store/get_n3', 'store/put_n3', 'store/delete_n3', 'cw/add_n3', 'cw/delete_n3', 'cw/update_outside_region_n3']},
+    kani_meta={
+        'stats/hit_ratio_is_the_quotient_small': dict(kind='bounded', note='hits, misses < 32'),
+        'store/get_n2': dict(kind='bounded'), 'store/get_ref_n2': dict(kind='bounded'), 'store/is_present_n2': dict(kind='bounded'),
+        'store/put_n2': dict(kind='bounded'), 'store/delete_n2': dict(kind='bounded'), 'store/update_n2': dict(kind='bounded'),
+        'cw/add_n2': dict(kind='bounded'), 'cw/delete_n2': dict(kind='bounded'), 'cw/update_outside_region_n2': dict(kind='bounded'),
+        'store/get_n3': dict(kind='bounded'), 'store/put_n3': dict(kind='bounded'), 'store/delete_n3': dict(kind='bounded'),
+        'cw/add_n3': dict(kind='bounded'), 'cw/delete_n3': dict(kind='bounded'), 'cw/update_outside_region_n3': dict(kind='bounded'),
+    },
+    bounded_note='Hoare triples from an arbitrary pre-state with at most N resident entries (N=2 quick, N=3 thorough), arbitrary start values of all ten counters; '
+                 'the exact quotient of hit_ratio is checked for hits, misses < 32 only (IEEE division equivalence is beyond CBMC on wider domains)',
+    floor={'quick': 16, 'thorough': 22},
+    assumptions=[CONC, 'AtomicU64::fetch_add wraps modulo 2^64 (hits + misses < 2^64 is assumed for the ratio)',
+                 'keys_rejected and the put path of the worker are covered under C05/C06, not here'],
+    explanation='Each named increment bumps exactly its own counter (10x10 frame, complete); hit_ratio is zero only without hits on the full u64 domain (complete); '
+                'every Store / CacheWeight operation changes the counters by exactly the documented deltas (bounded N).',
+)
+
+PROPS['C14']['title'] = 'Frequency estimates never under-count, saturate safely and age by halving'
+PROPS['C14']['kani'] = {'quick': ['fc/row_increment_at_all_bytes', 'fc/row_half_counters_all_bytes', 'fc/next_power_2_all_inputs', 'fc/matrix_contract_small',
+                                  'dk/add_if_missing_then_has', 'lfu/access_step_small_sketch'], 'thorough': []}
+PROPS['C14']['kani_meta'] = {'fc/matrix_contract_small': dict(kind='bounded', note='total_counters in {2,4,8}'),
+                             'lfu/access_step_small_sketch': dict(kind='bounded', note='2-counter sketch')}
+PROPS['C14']['floor'] = {'quick': 30, 'thorough': 30}
+PROPS['C14']['bounded_note'] = 'Kani twins only: the contract assumed for FrequencyCounter::matrix is checked for total_counters in {2,4,8}; the TinyLFU step on a 2-counter sketch'
+HARNESS_PREFIX['dk'] = 'cache::lfu::doorkeeper::verif_kani'
+PROPS['C12']['title'] = 'Every acknowledgement resolves exactly once to the command\'s real outcome'
+
+PROPS['C09'] = dict(
+    level='proof',
+    title='Expired values are never served',
+    kani={'quick': ['clock/has_passed_is_strictly_after', 'sv/is_alive_matches_spec', 'sv/never_expiring_has_no_deadline',
+                    'sv/expiring_sets_deadline_now_plus_ttl', 'sv/update_changes_exactly_what_was_requested',
+                    'store/get_n2', 'store/get_ref_n2', 'store/put_with_ttl_n2', 'store/update_n2'],
+          'thorough': ['store/get_n3', 'store/get_ref_n3', 'store/update_n3']},
+    kani_meta={'store/get_n2': dict(kind='bounded'), 'store/get_ref_n2': dict(kind='bounded'), 'store/put_with_ttl_n2': dict(kind='bounded'),
+               'store/update_n2': dict(kind='bounded'), 'store/get_n3': dict(kind='bounded'), 'store/get_ref_n3': dict(kind='bounded'), 'store/update_n3': dict(kind='bounded')},
+    bounded_note='Store triples: arbitrary store with at most N entries (N=2 quick, 3 thorough); the StoredValue / Clock obligations are loop-free over all SystemTime >= epoch and all Durations',
+    floor={'quick': 9, 'thorough': 12},
+    assumptions=[CONC, 'the client Clock is an arbitrary total function returning a time at or after the Unix epoch',
+                 'now + time_to_live is representable (otherwise: finding region F-C17-ttl-overflow, see C17)'],
+    explanation='has_passed(t) <=> now > t; is_alive <=> not soft-deleted and (no expiry or not now > expiry); expiring/update set expiry = now + ttl; '
+                'every read of Store filters on exactly that predicate, whether or not a sweep ran.',
+)
+
+PROPS['C10'] = dict(
+    level='proof',
+    title='The sweeper removes exactly the expired keys and reclaims their weight',
+    kani={'quick': ['ttl/shard_index_s2', 'ttl/shard_index_s4', 'ttl/put_n2_s2', 'ttl/delete_n2_s2', 'ttl/delete_unknown_n2_s2', 'ttl/update_n2_s2',
+                    'ttl/get_n2_s2', 'ttl/clear_n2_s2', 'ttl/sweep_n2_s2', 'idgen/ids_strictly_increase', 'cw/delete_n2'],
+          'thorough': ['ttl/put_n3_s4', 'ttl/update_n3_s4', 'ttl/sweep_n3_s4']},
+    kani_meta={h: dict(kind='bounded') for h in ['ttl/put_n2_s2', 'ttl/delete_n2_s2', 'ttl/delete_unknown_n2_s2', 'ttl/update_n2_s2', 'ttl/get_n2_s2',
+                                                  'ttl/clear_n2_s2', 'ttl/sweep_n2_s2', 'cw/delete_n2', 'ttl/put_n3_s4', 'ttl/update_n3_s4', 'ttl/sweep_n3_s4']},
+    bounded_note='TTLTicker triples: arbitrary ticker satisfying INV_ttl with at most N entries over S shards (N=2,S=2 quick; N=3,S=4 thorough); shard_index is complete over all times >= epoch',
+    floor={'quick': 11, 'thorough': 14},
+    harness_timeout='1500s', kani_timeout=3400,
+    assumptions=[CONC, 'hashbrown::HashMap is a map and retain visits every entry once (stand-in)', 'clock >= Unix epoch',
+                 'X1: one call of the extracted sweep step = one iteration of the sweeper loop'],
+    not_covered=['"eventually removed" (liveness over the tick schedule visiting every shard residue) is NOT decided',
+                 'the composition sweep -> CacheWeight::delete -> Store::delete is covered under C05'],
+    explanation='INV_ttl (every entry sits in shard secs(expiry) mod shards) is preserved by put/update/delete; the sweep step removes exactly the entries of the '
+                'current shard whose expiry has passed and calls the evict hook exactly once for each; deleting an unknown id in CacheWeight is the identity and ids are never reused.',
 )
